@@ -205,6 +205,14 @@ def traceStmts (env : Env) : List Stmt → State → List (Nat × Option SendSpe
         | _ => none
       (n, spec) :: traceStmts env ss st1
 
+/-- The known finding: a `send [A *]` statement whose postings are not in `A`. -/
+def c22SendAllAsset : List (Nat × Option SendSpec) → List Posting → Bool
+  | [], _ => false
+  | (n, spec) :: more, ps =>
+    (match spec with
+     | some sp => sp.amount.isNone && (ps.take n).any (fun p => p.asset ≠ sp.asset)
+     | none => false) || c22SendAllAsset more (ps.drop n)
+
 def sumAmounts (ps : List Posting) : Int := (ps.map (·.amount)).foldl (· + ·) 0
 
 /-- C22 on the real postings, split per statement by the model's counts. -/
@@ -332,15 +340,16 @@ def handleProg (which : String) : Handler := fun inp out => do
   let agree := textOk && agreeCompile && agreeRun
   -- property predicates on the REAL output
   let okRun := real.compileErr = "" && real.err = "" && real.panic = ""
-  let (p22, p23) :=
+  let (p22, p23, sendAllAsset) :=
     match prep with
     | some (.ok (env, bal, pairs)) =>
       if okRun then
         let tr := traceStmts env script.stmts (initState bal)
         (c22Check tr real.postings && tr.length = script.stmts.length,
-         c23Check input env script.stmts pairs real.postings)
-      else (true, true)
-    | _ => (true, true)
+         c23Check input env script.stmts pairs real.postings,
+         c22SendAllAsset tr real.postings)
+      else (true, true, false)
+    | _ => (true, true, false)
   -- C27: no panic, no hang, and an error leaves no partial result
   let p27 := real.panic = "" && !real.timeout &&
     ((real.err = "" && real.compileErr = "") ||
@@ -373,6 +382,7 @@ def handleProg (which : String) : Handler := fun inp out => do
       (match res with
        | .error (.panic s) => "panic:" ++ s
        | _ => "panic:unpredicted")
+    else if !p22 && sendAllAsset then "C22-sendall-overdraft-asset"
     else if !p22 then "C22-predicate"
     else if !p23 then "C23-predicate"
     else if !p27 then "C27-partial-result"
@@ -405,6 +415,10 @@ def handlePostings : Handler := fun inp out => do
   let script := txScript ps force
   let input : Input := { vars := vars, balance := balance, accountMeta := fun _ => none }
   let res := sem script input
+  -- hypothesis of C25.postings_roundtrip, evaluated on this case
+  let envOK := match prepare script input with
+    | .ok (env, _, _) => txEnvOK env (txAccounts ps []) (txMons ps []) ps
+    | .error _ => true
   let (mCompile, mErr, mPanic, mPostings) :=
     if ps.isEmpty then ("syntax", "", "", [])   -- `vars {` `}` with no declaration and no statement
     else match res with
@@ -422,7 +436,7 @@ def handlePostings : Handler := fun inp out => do
     | _ => Json.mkObj []
   let gPanic := optStrField out "panic"
   let real ← decRealOut (← field out "run")
-  let agree := gPanic = "" && gPlain = text && gVars == jStrMap vars &&
+  let agree := envOK && gPanic = "" && gPlain = text && gVars == jStrMap vars &&
     real.compileErr = mCompile && real.err = mErr && (real.panic = "") = (mPanic = "") &&
     real.postings = mPostings
   -- C25 on the implementation's output
@@ -453,7 +467,8 @@ def handlePostings : Handler := fun inp out => do
   pure { model, agree, prop, propModel,
          nontrivial := valid && ps.length ≥ 2 && (ps.map (·.source)).eraseDups.length ≥ 2,
          tags := outcome :: feats,
-         note := if !agree then "TxToScriptData text/vars or run result differs" else if !prop then "C25 predicate fails" else "",
+         note := if !envOK then "txEnvOK (hypothesis of postings_roundtrip) is false on this case"
+                 else if !agree then "TxToScriptData text/vars or run result differs" else if !prop then "C25 predicate fails" else "",
          sig := if !prop then "C25-predicate" else "" }
 
 /-! ## The `malformed` handler (C27): no model of the parser; records crashes -/
